@@ -1,4 +1,4 @@
-/- Driver ops for CVRP.  Ops: cvrp.step, cvrp.state, cvrp.judge, cvrp.instance
+/- Driver ops for CVRP.  Ops: cvrp.step, cvrp.state, cvrp.judge, cvrp.instance, cvrp.bounds
 
 State JSON (= `envs/cvrp.py: ser_state`): coordinates, demands, position, capacity, visited_mask,
 trajectory, num_total_visits, and `dist` = the (num_nodes+1)² matrix of Euclidean distances between
@@ -6,6 +6,7 @@ the coordinates (computed by the adapter; `cvrp.instance` checks it against the 
 cfg JSON: {"num_nodes", "max_capacity", "max_demand", "dense", "sqrt2": float32 √2 as [num, den]}. -/
 import JumanjiModel.Bridge.Json
 import JumanjiModel.Env.CVRP.Model
+import JumanjiModel.Env.CVRP.Bounds
 open Lean Jb
 
 namespace Jb.CVRP
@@ -105,7 +106,18 @@ def opInstance : Op := fun j => do
               ("feasible", jBool (decide (Feasible c.maxCap s))),
               ("dist_matches_coordinates", jBool (distMatches (1 / 100000) s.coords D))])
 
+def jBounds (t : Jm.OB.Table) : Json :=
+  jObj (t.map fun e => (e.1, jObj [("lo", match e.2.1 with | some r => jRat r | none => Json.null),
+                                   ("hi", match e.2.2 with | some r => jRat r | none => Json.null)]))
+
+/-- {"cfg": {"num_nodes": n, …}} → {leaf path: {"lo": rat|null, "hi": rat|null}}: the proved observation
+bounds (C01) -/
+def opBounds : Op := fun j => do
+  let cfg ← field j "cfg"
+  let n ← fNat cfg "num_nodes"
+  pure (jBounds (obsBounds n))
+
 def ops : List (String × Op) :=
   [("cvrp.step", opStep), ("cvrp.state", opState), ("cvrp.judge", opJudge),
-   ("cvrp.instance", opInstance)]
+   ("cvrp.instance", opInstance), ("cvrp.bounds", opBounds)]
 end Jb.CVRP
